@@ -192,6 +192,16 @@ m("persist-before-reference-check", "pytest_plugin.py", "                    for
 m("outsource-overwrites-persisted", "_external.py", "    if not storage.lookup_all(name):", "    if True:", [], "data is saved as -new although already persisted (harmless duplicate, pruned later; informational)")
 
 
+# ---- C19
+m("run-inline-applies-all", "testing/_example.py", "                        if change.flag in state.update_flags.to_set()", "                        if True", ["C19"], "run_inline applies every change regardless of the flags")
+m("run-inline-keeps-active", "testing/_example.py", "                finally:\n                    state.active = False", "                finally:\n                    pass", [], "run_inline leaves the state active while collecting (informational)")
+m("run-inline-no-imports", "testing/_example.py", "                    if used_hasrepr(tree):\n                        required_imports.append(\"HasRepr\")", "                    pass", ["C19"], "revert of the run_inline import fix")
+m("black-config-cwd", "_format.py", "    pyproject_path = find_pyproject_toml((str(path),))", "    pyproject_path = find_pyproject_toml((), path)", ["C19"], "revert of the black configuration lookup fix")
+m("run-inline-different-categories", "testing/_example.py", "                snapshot_flags = {change.flag for change in changes}", "                snapshot_flags = {change.flag for change in changes if change.flag != 'update'}", ["C19"], "run_inline does not report update")
+m("run-pytest-keeps-ci", "testing/_example.py", '            command_env.pop("CI", None)', '            command_env["CI"] = "1"', ["C19"], "run_pytest runs with CI set: nothing is applied")
+m("report-overlap-revert", "pytest_plugin.py", "                cr.clear_replacements()\n                apply_all(used_changes + changes[flag], cr)", "                apply_all(changes[flag], cr)", ["C19", "C04"], "revert of the cumulative report fix")
+
+
 def make_copy(mut):
     base = os.environ.get("VERIF_TMP") or ("/dev/shm" if os.path.isdir("/dev/shm") else tempfile.gettempdir())
     d = Path(tempfile.mkdtemp(prefix="mutant-", dir=base))
